@@ -810,3 +810,33 @@ def m_field(default=_MISSING, default_factory=None, converter=None, init=True, s
     from .interp import FieldSpec
 
     return FieldSpec(default, default_factory, converter, init, static)
+
+
+@entry("jax.lax.scan", tier="T3")
+def m_scan(f, init, xs=None, length=None, reverse=False, **kw):
+    """T3: lax.scan == fold over the leading axis in index order (reversed when reverse=True).  Cut at the contract's invariant.
+    xs must provide .length (z3 Int) and .at(k); the stacked outputs are not modelled (flowjax's scans return None there)."""
+    it = V.cur()
+    key = it._loop_key("lax.scan")
+    spec = it.loop_specs.get(key)
+    if spec is None:
+        raise Untranslatable(f"lax.scan {key} has no invariant in the contract")
+    fn, tag = key
+    nn = tag.split("#")[1]
+    n = xs.length if xs is not None else lift(length)
+    elem = (lambda k: xs.at(n - 1 - k if reverse else k)) if xs is not None else (lambda k: None)
+    it.emit(f"{fn}/{spec.name}#{nn}/init", "inv/init", spec.inv(z3.IntVal(0), init, init))
+    k = it.fresh("k", "int")
+    saved = len(it.cond)
+    st = spec.havoc(k, init)
+    it.assume(z3.And(k >= 0, k < n))
+    it.assume(spec.inv(k, st, init))
+    st2, _y = f(st, elem(k))
+    it.emit(f"{fn}/{spec.name}#{nn}/step", "inv/step", spec.inv(k + 1, st2, init))
+    del it.cond[saved:]
+    kx = it.fresh("kexit", "int")
+    xs_ = spec.havoc(kx, init)
+    it.assume(kx == n)
+    it.assume(kx >= 0)
+    it.assume(spec.inv(kx, xs_, init))
+    return xs_, None
